@@ -502,6 +502,8 @@ def run(ctx: Ctx):
     ctx.lean_build(extractors=["resolvers"])
     m = get_model(ctx)
     if m is None:
+        # the extractor cannot read the resolvers any more (broken tie): the oracle still runs, with a static string palette
+        run_oracle_only(ctx)
         return
     E._loader_nonstr[:] = [lambda s: py_tags(m, s)[1] != 0]
     rr = RealResolvers(m)
@@ -528,7 +530,7 @@ def run(ctx: Ctx):
     corpus_strings = [s for c in corpus if c.get("kind") == "strings" for s in c["strings"]]
     sg_seed = E.StrGen(m, ctx.rng, avoid={0x85})
     sg_fixed = E.StrGen(m, fixed_rng)
-    n_str = ctx.budget(1200, 12000) * (2 if boost() > 1 else 1)
+    n_str = ctx.budget(2500, 15000) * (2 if boost() > 1 else 1)
     gen_strings = [sg_seed.sample() for _ in range(n_str)]
     # obligations that are false on the regenerated tables: their shortest words are tried first (after the corpus)
     from ..extractors import resolvers as rx_mod
@@ -594,7 +596,7 @@ def run(ctx: Ctx):
         if not res.accepted:
             raise MachineryError("corpus case is no longer accepted: %s (%s)" % (c.get("name"), res.reject_reason))
         ctx.nontrivial("e:" + json.dumps(c["case"], sort_keys=True, default=repr))
-    n_seed = ctx.budget(350, 6000) * boost(3)
+    n_seed = ctx.budget(700, 7000) * boost(3)
     accepted = 0
     for i in range(n_seed):
         if enough(ctx):
@@ -608,7 +610,7 @@ def run(ctx: Ctx):
             if i < 3:
                 ctx.sample({"spec": [(a["name"], E.type_shape(a["type"])) for a in case["spec"]["args"]], "obj": case["obj"]})
     # wider exploration with a fixed internal seed (known-finding classes allowed; anything else is a violation)
-    n_wide = ctx.budget(250, 5000) * boost(3)
+    n_wide = ctx.budget(450, 6000) * boost(3)
     for i in range(n_wide):
         if enough(ctx):
             break
@@ -643,6 +645,59 @@ def image_text_misread(m, name, text):
     if type(got) is not want:
         return "the loader reads %r (%s), expected %s" % (got, type(got).__name__, tag)
     return None
+
+
+class FallbackGen:
+    """string source used when the automata cannot be extracted"""
+
+    def __init__(self, rng, strings):
+        self.rng, self.strings = rng, strings or ["1e3", "null", "a"]
+
+    def neighbour(self, s):
+        i = self.rng.randint(0, len(s))
+        return s[:i] + self.rng.choice(list("0123456789eE+-_.:xa ")) + s[i:]
+
+    def sample(self):
+        s = self.rng.choice(self.strings)
+        while self.rng.random() < 0.3:
+            s = self.neighbour(s)
+        return s
+
+
+def run_oracle_only(ctx):
+    from ..lib import corpus as corpus_mod
+
+    corpus = corpus_mod.load(ctx.prop)
+    strings = [s for c in corpus if c.get("kind") == "strings" for s in c["strings"]]
+    for s in strings:
+        for fmt in ("yaml", "json"):
+            ctx.count()
+            why = real_str_roundtrip(s, fmt)
+            if why and not known_scalar(ctx, s, fmt):
+                scalar_violation(ctx, s, fmt, "str value %r: %s after dump(format=%s)" % (s, why, fmt), "corpus")
+    sg = FallbackGen(ctx.rng, strings)
+    variants = [v for v in E.all_variants() if not E._is_comments(v)]
+    for c in corpus:
+        if c.get("kind") == "e2e":
+            judge_case(ctx, c["case"], variants, "corpus")
+    for _ in range(ctx.budget(600, 6000)):
+        if enough(ctx):
+            break
+        judge_case(ctx, E.gen_case(ctx.rng, sg, CLEAN_PROFILE), variants, "generated")
+    ctx.replay_fixed_demos()
+
+
+def value_misread(py, fmt):
+    """dump {'k': v} with the live dumper of the format and read it back with the live yaml loader"""
+    import ast
+
+    from jsonargparse import _loaders_dumpers as ld
+
+    v = {"inf": math.inf, "-inf": -math.inf, "nan": math.nan}.get(py)
+    if v is None:
+        v = ast.literal_eval(py)
+    back = ld.loaders["yaml"](ld.dumpers[fmt]({"k": v}))["k"]
+    return None if E.canon(back) == E.canon(v) else "re-read as %r" % (back,)
 
 
 def replay_witness(w):
@@ -689,8 +744,9 @@ def replay(ctx: Ctx, body):
         print("text %r (%s): %s" % (r["text"], r["image"], why or "read with the right tag"))
         return 1 if why else 0
     if kind == "value":
-        print("value round trip:", r)
-        return 1
+        why = value_misread(r["value"], r["format"])
+        print("value %s, format %s: %s" % (r["value"], r["format"], why or "round trip holds"))
+        return 1 if why else 0
     if kind == "demo":
         env = dict(os.environ, PYTHONPATH=REPO)
         p = subprocess.run(["/venv/bin/python", os.path.join(VERIF, r["demo"])], env=env)
